@@ -343,6 +343,9 @@ class C02Executor(Executor):
         return super()._b(x)
 
     def add_vc(self, kind, label, pc, goal, note="", loc=""):
+        role = getattr(self.contract, "oid_qual", None) if self.contract is not None else None
+        if role and "::" in self.oid_prefix and not self.oid_prefix.endswith("::" + role):
+            self.oid_prefix = self.oid_prefix.rsplit("::", 1)[0] + "::" + role        # ids name the role, not the current identifier
         if isinstance(goal, Conj):
             for (sub, t) in goal:
                 self.add_vc(kind, f"{label}.{sub}" if label else sub, pc, t, note, loc)
